@@ -9,3 +9,5 @@ PROPS['C16'] = ('sched_family', 'c16')
 PROPS['C17'] = ('sched_family', 'c17')
 PROPS['C05'] = ('sched_family', 'c05')
 PROPS['C19'] = ('sched_family', 'c19')
+PROPS['C11'] = ('sched_family', 'c11')
+PROPS['C10'] = ('sched_family', 'c10')
